@@ -66,6 +66,10 @@ EngineLocal == AtStart => \A k \in ImgCells(c) :
 \* 16-bit limbs stay limbs; the address of a cell is origin + offset
 AddrOK == AtStart => \A k \in ImgCells(c) : LET a == Addr(c, CellLo(c, k)) IN
             /\ a[2] \in 0..65535 /\ (a[1] - c.oh) * 65536 + a[2] = c.ol + CellLo(c, k)
+\* the address-derived cipher inputs (address >> 4, page number) computed on limbs equal the ones computed on the number
+ShrOK == AtStart => \A k \in ImgCells(c) : LET off == CellLo(c, k)
+                                               n   == c.oh * 65536 + c.ol + off IN
+            Shr(c, off, 16) = n \div 16 /\ Shr(c, off, 4096) = n \div 4096
 \* the run ends, having fetched every cell and handled every cut
 Finished == phase = "done" => loaded = c.nrec
 CutsInside == AtStart => \A s \in Cuts(c) : s \in ImgCells(c) /\ s * c.C > ImgLo(c) /\ s * c.C < ImgHi(c) /\ s % c.salign = 0
